@@ -41,9 +41,7 @@ theorem powModAux_eq (fuel a n m acc : Nat) (hf : n < 2 ^ fuel) :
 
 def p25519 : Nat := 2^255 - 19
 
-example : powMod 2 (p25519 - 1) p25519 = 1 := by decide +kernel
-example : powMod 2 ((p25519 - 1)/2) p25519 ≠ 1 := by decide +kernel
+
+
 
 end Spike
-theorem t1 : Spike.powMod 2 (Spike.p25519 - 1) Spike.p25519 = 1 := by decide +kernel
-#print axioms t1
